@@ -331,6 +331,49 @@ func (p *Publisher) BuildEntries(n int, tag int) []cid.Cid {
 	return out
 }
 
+// MislabelHead makes the publisher hostile in one particular way: it publishes one more advertisement whose
+// PreviousID names the current head's *content* under another hash function: a CID whose multihash code is
+// code but whose digest is the digest of the current head's block under the chain's own hash function. The
+// body of the current head is served for that CID. Returns the crafted CID (no honest client may store it).
+func (p *Publisher) MislabelHead(code uint64) cid.Cid {
+	cur := p.Chain[len(p.Chain)-1]
+	body := p.Body(cur)
+	dm, err := multihash.Decode(cur.Hash())
+	if err != nil {
+		panic(err)
+	}
+	mh, err := multihash.Encode(dm.Digest, code)
+	if err != nil {
+		panic(err)
+	}
+	crafted := cid.NewCidV1(cur.Prefix().Codec, mh)
+	// the honest publisher code would refuse to serve bytes that do not hash to the key: serve them as a custom body
+	p.FaultCid(crafted, Fault{Kind: "custom", Body: body}, Fault{Kind: "custom", Body: body}, Fault{Kind: "custom", Body: body})
+	i := len(p.Chain)
+	ad := schema.Advertisement{
+		Provider:   p.ID.String(),
+		Addresses:  []string{"/ip4/8.8.8.8/tcp/9999"},
+		Entries:    schema.NoEntries,
+		ContextID:  []byte(fmt.Sprintf("ctx-%d-%d", p.Idx, i)),
+		Metadata:   []byte{0x80, 0x12},
+		PreviousID: cidlink.Link{Cid: crafted},
+	}
+	if err := ad.Sign(p.Key.Priv); err != nil {
+		panic(err)
+	}
+	nd, err := ad.ToNode()
+	if err != nil {
+		panic(err)
+	}
+	l, err := p.Lsys.Store(ipld.LinkContext{}, p.LinkProto, nd)
+	if err != nil {
+		panic(err)
+	}
+	p.Chain = append(p.Chain, l.(cidlink.Link).Cid)
+	p.Pub.SetRoot(p.Chain[len(p.Chain)-1])
+	return crafted
+}
+
 // BuildGenericChain stores n generic map nodes, each linking to its predecessor under a key that is neither
 // an advertisement's nor an entry chunk's link field (the shape of a HAMT path: only an explore-all selector
 // follows it, and a block hook cannot name a "next" CID). Returns the CIDs, deepest node first.
